@@ -8,6 +8,6 @@ def _extra(ctx):
     run_session_correspondence(ctx)
     run_endpoint_correspondence(ctx)
 def run(ctx):
-    generic_run(ctx, LABELS, extra=_extra, plan=[("double_death", lambda: F.fam_double_death(ctx.rng, sizes(ctx, 60, 600))), ("death_before_input", lambda: F.fam_death_before_input(ctx.rng, sizes(ctx, 60, 600))), ("death2", lambda: F.fam_death(ctx.rng, sizes(ctx, 300, 3000))), ("handshake", lambda: F.fam_handshake(ctx.rng, sizes(ctx, 100, 800))), ("sparse_polls", lambda: F.fam_sparse_polls(ctx.rng, sizes(ctx, 120, 1000)))])
+    generic_run(ctx, LABELS, extra=_extra, plan=[("double_death", lambda: F.fam_double_death(ctx.rng, sizes(ctx, 60, 600))), ("death_before_input", lambda: F.fam_death_before_input(ctx.rng, sizes(ctx, 60, 600))), ("disc_two_players", lambda: F.fam_disc_two_players(ctx.rng, sizes(ctx, 40, 400))), ("death2", lambda: F.fam_death(ctx.rng, sizes(ctx, 300, 3000))), ("handshake", lambda: F.fam_handshake(ctx.rng, sizes(ctx, 100, 800))), ("sparse_polls", lambda: F.fam_sparse_polls(ctx.rng, sizes(ctx, 120, 1000)))])
 def replay(ctx, path):
     return sim_replay(ctx, path, LABELS)
